@@ -101,6 +101,32 @@ def concurrent(ctx, kind, path, jobs, extra=()):
     return errs
 
 
+def rerun_tasks(ctx, kind, n, seq, con, task, private, inp):
+    """tasks that already completed are run again (retries): same footprint discipline, and running all the retries at
+    once as OS processes must leave what the sequential retries leave"""
+    tasks = {}
+    for j in range(n):
+        w, r, exc = footprint(seq, lambda j=j: task(j))
+        if exc is not None:
+            ctx.violate(f"{kind} partition {j} failed when run a second time: {exc!r}", inp, "ok", repr(exc))
+            return False
+        tasks[j] = (w, r)
+    ctx.case((kind, "rerun", n, repr(sorted(inp.get("vcf_spec", {}).get("records", []), key=repr))[:200]), n >= 2)
+    check_footprints(ctx, f"{kind} (re-run)", tasks, private, inp)
+    for rnd in range(3 if ctx.thorough else 2):
+        errs = concurrent(ctx, kind, con, [(j, ()) for j in range(n)])
+        ctx.count(f"{kind}_concurrent_reruns")
+        if errs:
+            ctx.violate(f"{n} concurrent re-runs of completed {kind} partitions failed: {errs[0][-200:]}", inp, "all succeed", errs[0][-200:])
+            return False
+        a, b = protolib.snapshot(seq), protolib.snapshot(con)
+        if a != b:
+            bad = sorted(p for p in set(a) | set(b) if a.get(p) != b.get(p))[:5]
+            ctx.violate(f"{n} concurrent re-runs of {kind} partitions leave a tree differing from the sequential one in {bad}", inp, "identical", bad)
+            return False
+    return True
+
+
 def one_conversion(ctx, work, k):
     from bio2zarr import vcf2zarr
     rng = ctx.rng
@@ -140,6 +166,10 @@ def one_conversion(ctx, work, k):
     if errs:
         ctx.violate(f"concurrent explode partitions failed: {errs[0][:200]}", inp, "all succeed", errs[0][:200])
         return
+    # every task once more, now that its own output (and everybody else's) already exists: a scheduler retry
+    if not rerun_tasks(ctx, "explode", n, icf_seq, icf_con, lambda j: vcf2zarr.explode_partition(icf_seq, j), private_explode,
+                       {**inp, "partitions": n}):
+        return
     vcf2zarr.explode_finalise(icf_seq)
     vcf2zarr.explode_finalise(icf_con)
     a, b = protolib.snapshot(icf_seq), protolib.snapshot(icf_con)
@@ -171,6 +201,9 @@ def one_conversion(ctx, work, k):
     errs = concurrent(ctx, "encode", z_con, [(j, ()) for j in range(n)])
     if errs:
         ctx.violate(f"concurrent encode partitions failed: {errs[0][:200]}", inp, "all succeed", errs[0][:200])
+        return
+    if not rerun_tasks(ctx, "encode", n, z_seq, z_con, lambda j: vcf2zarr.encode_partition(z_seq, j), private_encode,
+                       {**inp, "partitions": n, "variants_chunk_size": vcs}):
         return
     vcf2zarr.encode_finalise(z_seq)
     vcf2zarr.encode_finalise(z_con)
